@@ -3,6 +3,7 @@ package c13
 import (
 	"crypto/x509/pkix"
 	"encoding/asn1"
+	"strings"
 
 	"github.com/emmansun/gmsm/pkcs"
 	"github.com/emmansun/gmsm/pkcs8"
@@ -115,7 +116,7 @@ func epsPKCS() []*epT {
 				return
 			}})
 		n2 := "pkcs.Cipher.Decrypt[ciphertext," + nc.name + "]"
-		eps = append(eps, &epT{name: n2, fast: true, pairLimit: 24,
+		eps = append(eps, &epT{name: n2, fast: strings.HasPrefix(nc.name, "SM4-"), pairLimit: 24,
 			seeds: []seedT{{name: "ct-" + nc.name, gen: func() []byte { return cipherPair(nc).ct }}},
 			call: func(x *cx, in []byte) (ok bool) {
 				var alg pkix.AlgorithmIdentifier
@@ -158,7 +159,7 @@ func epsPKCS() []*epT {
 			return err == nil, true
 		}
 		n := typ + "[alg," + p.name + "]"
-		eps = append(eps, &epT{name: n, der: true, fast: true, thoroughOnly: p.thorough,
+		eps = append(eps, &epT{name: n, der: true, thoroughOnly: p.thorough,
 			seeds: []seedT{{name: "p8alg-" + p.name, protect: protectKDFIntsAlg, gen: func() []byte {
 				return must(asn1.Marshal(splitP8(seedMemoOr("p8enc-" + p.name)).Alg))
 			}}},
@@ -168,7 +169,7 @@ func epsPKCS() []*epT {
 				return
 			}})
 		n2 := typ + "[ciphertext," + p.name + "]"
-		eps = append(eps, &epT{name: n2, fast: true, pairLimit: 24, thoroughOnly: p.thorough,
+		eps = append(eps, &epT{name: n2, pairLimit: 24, thoroughOnly: p.thorough,
 			seeds: []seedT{{name: "p8ct-" + p.name, gen: func() []byte { return splitP8(seedMemoOr("p8enc-" + p.name)).Data }}},
 			call: func(x *cx, in []byte) (ok bool) {
 				alg := must(asn1.Marshal(splitP8(seedMemoOr("p8enc-" + p.name)).Alg))
@@ -194,14 +195,14 @@ func epsPKCS8() []*epT {
 			x.g("pkcs8.ParsePrivateKey[password]", func() { _, _, err := pkcs8.ParsePrivateKey(in, password); ok = err == nil })
 			return
 		}})
-	eps = append(eps, &epT{name: "pkcs8.ParsePKCS8PrivateKeySM2[password]", der: true, fast: true, pairLimit: -1,
+	eps = append(eps, &epT{name: "pkcs8.ParsePKCS8PrivateKeySM2[password]", der: true, pairLimit: -1,
 		seeds: []seedT{encSeeds[1]},
 		call: func(x *cx, in []byte) (ok bool) {
 			x.g("pkcs8.ParsePKCS8PrivateKeySM2[password]", func() { _, err := pkcs8.ParsePKCS8PrivateKeySM2(in, password); ok = err == nil })
 			return
 		}})
 	// an encrypted container whose payload is an SM9 key / an RSA key (decrypted payload goes to other parsers)
-	eps = append(eps, &epT{name: "pkcs8.ParseSM9EncryptPrivateKey[password]", der: true, fast: true, pairLimit: -1,
+	eps = append(eps, &epT{name: "pkcs8.ParseSM9EncryptPrivateKey[password]", der: true, pairLimit: -1,
 		seeds: []seedT{{name: "p8enc-smpbes-sm9encuser", protect: protectKDFIntsP8, gen: func() []byte {
 			return must(pkcs8.MarshalPrivateKey(kr.SM9EncUser(), password, pkcs.NewSMPBESEncrypter(8, 2)))
 		}}},
@@ -211,7 +212,7 @@ func epsPKCS8() []*epT {
 		}})
 	// unencrypted: the typed wrappers over smx509.ParsePKCS8PrivateKey
 	plain := func(n, seedName string, gen func() []byte, f func(in []byte) error) *epT {
-		return &epT{name: n, der: true, fast: true, pairLimit: -1, seeds: []seedT{{name: seedName, gen: gen}},
+		return &epT{name: n, der: true, fast: n == "pkcs8.ParsePrivateKey[no-password]", pairLimit: -1, seeds: []seedT{{name: seedName, gen: gen}},
 			call: func(x *cx, in []byte) (ok bool) {
 				x.g(n, func() { ok = f(in) == nil })
 				return
